@@ -685,10 +685,17 @@ def simulate_generator(chk: Check, ctx: FuncCtx, loop, base=None, fields=None, c
     """The values a single-loop generator yields for one model input: rounds of `simulate_loop` plus the statements behind the
     loop (evaluated with the final state).  -> list of values | None (not decidable by evaluation) | ("raise",)"""
     carried = loop_carried(chk, ctx, loop)
-    rounds = simulate_loop(chk, ctx, loop, carried, None, fields=fields, base=base, call_models=call_models)
-    if not rounds and not isinstance(loop, ast.For):
-        return None
     out = []
+    # the way to the loop: what is yielded in front of it, and a fast path that ends the generator there
+    hdr0 = ctx.cfg.node_of[loop]
+    v_pre = S.Valuation(1, override=base, fields=fields)
+    v_pre.call_models = call_models
+    pre_nodes, pre_exit = walk_cfg(chk, ctx, ctx.cfg.entry, v_pre, stop=lambda n_: n_ is hdr0)
+    if pre_exit[0] not in ("stop", "return", "exit"):
+        return ("raise",) if pre_exit[0] == "raise" else None
+    rounds = simulate_loop(chk, ctx, loop, carried, None, fields=fields, base=base, call_models=call_models) if pre_exit[0] == "stop" else Rounds()
+    if not rounds and not isinstance(loop, ast.For) and pre_exit[0] == "stop":
+        return None
 
     def collect(nodes, val):
         for node in nodes:
@@ -700,6 +707,9 @@ def simulate_generator(chk: Check, ctx: FuncCtx, loop, base=None, fields=None, c
                     out.append(S.ev(rx(chk, ctx, y.value, node), val) if y.value is not None else None)
 
     try:
+        collect(pre_nodes, v_pre)
+        if pre_exit[0] != "stop":
+            return out
         for r in rounds:
             if r[2][0] in ("fork", "limit"):
                 return None
